@@ -26,4 +26,13 @@ PROPS = {
         "level_note": "Trusted: Lean kernel; hand-written model Chain/Aggregate.lean (uses each report's own value where the code reads values[reporter]: equal for distinct reporters, which the store key guarantees and the generator respects); big.Int.SetString(_,16) modelled by parseHex and differential-tested; the `for i < power` loop of the mode is modelled by its sum (gas/time cost not modelled).",
         "trusted": ["model Chain/Aggregate.lean written by hand", "parseHex models big.Int.SetString(s,16)", "reporters distinct within a round (store key)"],
     },
+    "C20": {
+        "props_module": "LayerModel.Props.C20",
+        "families": [("medianu", 4000, 200000), ("mediani", 4000, 200000), ("pcache", 3000, 100000)],
+        "gen": [],
+        "rule": "median families: even-length inputs (the rounding/overflow branch); pcache: operation sequences in which at least one read served a price; distinct = distinct input lines",
+        "level_text": "Theorems: lib.Median on uint64 returns the middle element / the mean of the two middle elements rounded up for every non-empty list with every machine operation wrapped at 2^64 (so no overflow changes the result), the int64 branch arithmetic equals the mean rounded away from zero, the result is independent of collection order, a price is served iff the market is known and at least min (and at least one) exchanges are fresh, and it is the median of exactly the fresh prices; an exchange's stored price only moves forward in time. Tied to the real lib.Median and MarketToExchangePrices by differential op sequences; a history-level specification (latest update per exchange by time) runs as monitor on the implementation's reads.",
+        "level_note": "Trusted: Lean kernel; hand-written models Daemon/Median.lean, Daemon/PriceCache.lean; Go map iteration order abstracted (median proved order-independent). Partial: data-race freedom and the Go memory model are runtime behaviour outside any executable model (see DESIGN.md C20).",
+        "trusted": ["models Daemon/Median.lean and Daemon/PriceCache.lean written by hand", "time.Time compared as integer nanoseconds (monotonic clock readings not modelled)"],
+    },
 }
